@@ -21,3 +21,27 @@
 #ifndef VERIF_LOOP_pbind_copy
 #define VERIF_LOOP_pbind_copy
 #endif
+#ifndef VERIF_LOOP_p2bin_fill
+#define VERIF_LOOP_p2bin_fill
+#endif
+#ifndef VERIF_LOOP_p2bin_hdr
+#define VERIF_LOOP_p2bin_hdr
+#endif
+#ifndef VERIF_LOOP_p2bin_sum
+#define VERIF_LOOP_p2bin_sum
+#endif
+#ifndef VERIF_LOOP_p2bin_sum_inner
+#define VERIF_LOOP_p2bin_sum_inner
+#endif
+#ifndef VERIF_LOOP_p2bin_copy
+#define VERIF_LOOP_p2bin_copy
+#endif
+#ifndef VERIF_LOOP_p2bin_lane
+#define VERIF_LOOP_p2bin_lane
+#endif
+#ifndef VERIF_LOOP_p2bin_rec
+#define VERIF_LOOP_p2bin_rec
+#endif
+#ifndef VERIF_LOOP_p2bin_measure
+#define VERIF_LOOP_p2bin_measure
+#endif
